@@ -245,6 +245,32 @@ def run_real_c13(case):
                         os.kill(p, 9)
                     except OSError:
                         pass
+            # a helper process that ignores SIGTERM (the shell itself dies from it): cancelled while running, and
+            # hitting a time limit - the helper has to be gone in both cases
+            for label, tl in (("termproof-cancel", None), ("termproof-timelimit", 1)):
+                mk = "30%d.%06d%s" % (4 if tl is None else 5, rng.randrange(10**6), uniq)
+                t7 = pool.raw_enqueue(label.replace("-", "_"), "(trap '' TERM; exec sleep %s) &\necho started\nwait\n" % mk, proj.root, time_limit=tl, deps=[])
+                pool.wait_states(lambda st: st.get(t7) in ("RUNNING", "KILLED"), timeout=15)
+                if tl is None:
+                    for _ in range(40):
+                        if marker_pids(mk):
+                            break
+                        time.sleep(0.05)
+                    time.sleep(0.3)  # let the sub-shell install its trap and exec
+                    c = pool.client()
+                    c.send("cancel_task", tid=t7)
+                    c.close()
+                pool.wait_states(lambda st: st.get(t7) in ("CANCELLED", "KILLED", "FAILED"), timeout=40)
+                time.sleep(2.0)
+                left = marker_pids(mk)
+                res.mon("orphans_checked")
+                if left:
+                    res.violation("orphan-process", "%s: 2 s after the task became final (%s) its SIGTERM-ignoring helper still runs (pids %s)" % (label, pool.states().get(t7), left))
+                    for p in left:
+                        try:
+                            os.kill(p, 9)
+                        except OSError:
+                            pass
             # a task that cannot be started (missing working directory) and its dependent
             t3 = pool.raw_enqueue("nowd", "echo hi", os.path.join(proj.root, "does", "not", "exist"), time_limit=None, deps=[])
             t4 = pool.raw_enqueue("afternowd", "echo hi", proj.root, time_limit=None, deps=[t3])
